@@ -15,6 +15,7 @@ import (
 //   - every value the default factory returns is constructed by that invocation, or read from a registry
 //     that nothing reachable from the factory writes (compiled integrations are registered, not built);
 //   - pointer-typed members of the destination the constructor builds are constructed by that invocation.
+//
 // Decided: where the values come from. Not decided: what a compiled (user-supplied) destination shares.
 func checkDestinationsOwned(c *Ctx, rule string, res *Resolver) {
 	w := c.W
